@@ -55,6 +55,15 @@ def run(ctx):
                 m = rng.choice(fitb)
                 hist.append(call("transform", rng.sample(members[m], min(len(members[m]), 4)) + [m]))
                 jobs.append(dict(adapter=name, cfg=ci, cfg_extra={"_encodings": pool}, seed=ctx.seed, history=hist, idmap=idmap))
+    # batches longer than the minimal internal chunk (256 rows) with a memory_size that puts 288 rows into one block: equal measures
+    # must still get equal embeddings, whatever their position in the batch
+    for name in ("Measure[LOT_exact,lil]", "Measure[LOT_exact,spmatrix]"):
+        for ci in (0,):
+            long1 = [rng.choice(members[m]) for m in [1, 2, 3, 4] * 75]
+            long2 = [rng.choice(members[m]) for m in [5, 1, 6] * 86 + [2]]
+            hist = [call("fit", fitb), call("transform", [1, 2, 3, 4, 5, 6]), call("knob", [], 4), call("transform", long1),
+                    call("knob", [], 2), call("transform", long2[:7]), call("knob", [], 4), call("transform", long2)]
+            jobs.append(dict(adapter=name, cfg=ci, cfg_extra={"_encodings": pool}, seed=ctx.seed, history=hist, idmap=idmap))
     ctx.log("C08 histories to replay:", len(jobs))
     jobs.sort(key=lambda j: (j["adapter"], j["cfg"]))
 
